@@ -57,6 +57,14 @@ fn run_gibbs(n: usize, seed: u64, progress: bool) -> String {
     fnv(out.iter().map(|x| x.to_bits()))
 }
 fn run_hmc(n: usize, seed: u64, progress: bool) -> String {
+    if n % 2 == 1 {
+        // odd chain counts run in double precision (the output is a function of (kind, n, seed) either way)
+        type B64 = Autodiff<NdArray<f64>>;
+        let target = DiffableGaussian2D::<f64>::new([0.0, 1.0], [[1.5, 0.4], [0.4, 1.0]]);
+        let mut s = HMC::<f64, B64, _>::new(target, init_with_seed(n, 2, 7), 0.15, 4).set_seed(seed);
+        let out = if progress { s.run_progress(12, 3).unwrap().0 } else { s.run(12, 3) };
+        return fnv(out.into_data().to_vec::<f64>().unwrap().into_iter().map(|x| x.to_bits()));
+    }
     let target = DiffableGaussian2D::<f32>::new([0.0, 1.0], [[1.5, 0.4], [0.4, 1.0]]);
     let mut s = HMC::<f32, B32, _>::new(target, init_with_seed(n, 2, 7), 0.15, 4).set_seed(seed);
     let out = if progress { s.run_progress(12, 3).unwrap().0 } else { s.run(12, 3) };
